@@ -81,7 +81,7 @@ impl<const CAP: usize> Fifo<CAP> {
         let np = self.np;
         let pushed = self.pushed;
         let s = self.rx.stream();
-        kani::cover!(np == full && s.validation_results >= 1, "full schedule with a validation failure");
+        kani::cover!(np == full && validation + io >= 1, "full schedule with a failing entry");
         kani::cover!(np >= 2 && pushed[0] > 100 && pushed[1] < 100, "two producers interleaved");
         assert!(s.n == np, "every appended entry reaches the stream exactly once (count)");
         let i: usize = kani::any();
@@ -154,10 +154,25 @@ struct Ring<const CAP: usize> {
     npop: usize,
     next: u8,
 }
+/// writer progress scheduled inside the overflow-report callback of the current append
+static mut RING_RX: *mut hooks::Rx<RecStream, IdEntry> = core::ptr::null_mut();
+static mut POP_IN_CALLBACK: bool = false;
+static mut POPPED_IN_CALLBACK: bool = false;
+fn writer_runs_during_callback() {
+    unsafe {
+        if POP_IN_CALLBACK && !RING_RX.is_null() {
+            POPPED_IN_CALLBACK = (*RING_RX).pop_and_consume_one();
+        }
+    }
+}
+
 impl<const CAP: usize> Ring<CAP> {
     fn new() -> Self {
         let (tx, rx) = rig::<CAP>([0; LOG], core::ptr::null_mut(), true);
-        unsafe { OVERFLOWS = 0 };
+        unsafe {
+            OVERFLOWS = 0;
+            ON_OVERFLOW_REPORT = Some(writer_runs_during_callback);
+        }
         Ring { tx, rx, model: [0; 3], mlen: 0, dropped: 0, popped: [0; LOG], npop: 0, next: 1 }
     }
     fn shift(&mut self) {
@@ -166,13 +181,29 @@ impl<const CAP: usize> Ring<CAP> {
     fn step(&mut self) {
         let push: bool = kani::any();
         if push {
+            // the writer may take an entry while the appender is inside the overflow-report callback
+            unsafe {
+                RING_RX = &mut self.rx as *mut _;
+                POP_IN_CALLBACK = kani::any();
+                POPPED_IN_CALLBACK = false;
+            }
             // must return: no blocking path is modelled (yield_now / park would fail the proof)
             self.tx.push(IdEntry(self.next));
+            unsafe { RING_RX = core::ptr::null_mut() };
             if self.mlen == CAP {
                 self.shift();
                 self.model[CAP - 1] = self.next;
                 self.dropped += 1;
+                // reference order: the entry is displaced first, the report (and anything running during it) follows
+                if unsafe { POP_IN_CALLBACK } {
+                    assert!(unsafe { POPPED_IN_CALLBACK }, "a full queue has an entry for the writer");
+                    self.popped[self.npop] = self.model[0];
+                    self.npop += 1;
+                    self.shift();
+                    self.mlen -= 1;
+                }
             } else {
+                assert!(unsafe { !POPPED_IN_CALLBACK }, "no overflow report without an overflow");
                 self.model[self.mlen] = self.next;
                 self.mlen += 1;
             }
@@ -209,7 +240,7 @@ impl<const CAP: usize> Ring<CAP> {
 queue_harness! {
 // @check C09 quick timeout=1500 mem=14
 // @encodes sink::background::Inner::push (force_push + overflow counter), crossbeam_queue::ArrayQueue::{new,force_push,pop,len}, Receiver::consume
-// @bounds capacity 1; 4 symbolic steps, each append or writer-takes-one (stalled writer = all appends)
+// @bounds capacity 1; 4 symbolic steps, each append or writer-takes-one (stalled writer = all appends); during an append that overflows, the writer may additionally take an entry while the appender is inside the overflow-report callback (one modelled interleaving point inside push)
 // @oracle differential against a drop-oldest ring model in the harness: queue length, popped ids and order equal the model's; recorder's metrique_queue_overflows == entries displaced; append always returns
 // @stubs tracing x4, Instant::now, alloc::fmt::format, Parker::park_deadline, mpsc::Receiver::try_recv
 // @outside concurrent producers racing the wrap-around; the rate-limited log line
@@ -268,7 +299,7 @@ static mut FINAL_FLUSHES: usize = 0;
 static mut FINAL_N_AT_FLUSH: usize = 0;
 static mut FINAL_SEEN: [u8; LOG] = [0; LOG];
 
-fn publish_final(s: &RecStream) {
+fn publish_final(s: &OkStream) {
     unsafe {
         FINAL_N = s.n;
         FINAL_FLUSHES = s.flushes;
@@ -280,7 +311,10 @@ fn publish_final(s: &RecStream) {
 fn shutdown_drains() {
     const CAP: usize = 2;
     let mut dropped_flag = false;
-    let (tx, mut rx) = rig::<CAP>([0; LOG], &mut dropped_flag as *mut bool, false);
+    let mut stream = OkStream::new(&mut dropped_flag as *mut bool);
+    stream.publish = Some(publish_final);
+    let (tx, mut rx): (hooks::Tx<IdEntry>, hooks::Rx<OkStream, IdEntry>) =
+        hooks::unspawned(stream, CAP, None, Duration::from_secs(1), Duration::from_secs(30));
     let k: usize = kani::any();
     kani::assume(k <= CAP);
     let pre: bool = kani::any();
@@ -290,8 +324,6 @@ fn shutdown_drains() {
     if pre { rx.pop_and_consume_one(); }
     kani::cover!(k == CAP && pre, "full queue, partially drained before shutdown");
     kani::cover!(k == 0, "empty queue at shutdown");
-    rx.stream().flush_fails = false;
-    rx.stream().publish = Some(publish_final);
     unsafe { FINAL_N = usize::MAX };
     rx.shut_down();
     assert!(dropped_flag, "the stream has been dropped (closed) when shut_down returns");
